@@ -21,6 +21,19 @@ def gen_matrix(rng, kind):
         n = m + int(rng.integers(1, 5))
     elif kind == 'square':
         n = m
+    if kind == 'slender':
+        # one side many times longer than the other (snapshot matrices, long logs of few signals); every other one
+        # rank deficient or with a nearly vanishing singular value
+        k = int(rng.integers(1, 5)); long = k * int(rng.integers(12, 31))
+        m, n = (long, k) if rng.random() < 0.5 else (k, long)
+        v = int(rng.integers(0, 3))
+        if v == 0 or k == 1:
+            return rng.normal(size=(m, n))
+        Q, _ = np.linalg.qr(rng.normal(size=(m, k)))
+        Z, _ = np.linalg.qr(rng.normal(size=(n, k)))
+        sv = np.sort(rng.uniform(0.5, 3.0, size=k))[::-1]
+        sv[-1] = 0.0 if v == 1 else 1e-9
+        return Q @ np.diag(sv) @ Z.T
     k = min(m, n)
     if kind == 'repeated':
         # prescribed, repeated singular values: X = Q diag(s) Z^T with random orthonormal Q, Z
@@ -108,7 +121,7 @@ def run_cases(rng, n):
     samples = []
     dist = {}
     evals = 0
-    kinds = ['tall', 'wide', 'square', 'repeated', 'rankdef', 'diag', 'random']
+    kinds = ['tall', 'wide', 'square', 'repeated', 'rankdef', 'diag', 'random', 'slender']
     for cid in range(n):
         kind = kinds[cid % len(kinds)]
         X = gen_matrix(rng, kind)
@@ -205,7 +218,7 @@ def run(res, tier):
     batch, failed, errors, bad, samples, dist, evals = run_cases(rng, n)
     res.coverage.update(
         evaluations=evals, distinct_nontrivial=evals,
-        rule=('Matrices: tall / wide / square / prescribed repeated singular values / rank-deficient / diagonal / random; '
+        rule=('Matrices: tall / wide / square / prescribed repeated singular values / rank-deficient / diagonal / random / slender (aspect 12..30, also rank deficient); '
               'truncations: economy, rank (0..k+2), cutoff (above all, below all, between, and bit-exact ties taken from the '
               'economy fit), known_noise, unknown_noise; 35% of the fits reuse an estimator object fitted before on another '
               'matrix. M2: the retained rank of the implementation is compared inside Coq with rank_rule evaluated on order '
